@@ -9,6 +9,7 @@ import Logg.Drive.C07
 import Logg.Drive.C10
 import Logg.Drive.C11
 import Logg.Drive.C12
+import Logg.Drive.C14
 import Logg.Drive.C15
 import Logg.Drive.C16
 import Logg.Drive.C17
@@ -41,6 +42,7 @@ def dispatch (st : DriverState) (line : String) : DriverState × String :=
   | "C10" :: rest => let (s, o) := Drive.C10.step st.c10 rest; ({ st with c10 := s }, o)
   | "C11" :: rest => let (s, o) := Drive.C11.step st.c11 rest; ({ st with c11 := s }, o)
   | "C12" :: rest => let (s, o) := Drive.C12.step st.c12 rest; ({ st with c12 := s }, o)
+  | "C14" :: rest => (st, Drive.C14.step rest)
   | "C15" :: rest => (st, Drive.C15.step st.c17 rest)
   | "C16" :: rest => let (s, o) := Drive.C16.step st.c16 rest; ({ st with c16 := s }, o)
   | "C17" :: rest => let (s, o) := Drive.C17.step st.c17 rest; ({ st with c17 := s }, o)
